@@ -188,7 +188,7 @@ def prune_range(ctx, P):
 
     def is_max_prune(e):
         e = resolve(e)
-        if not (is_expr(e) and e[0] == "call" and e[1] == "std::max" and len(e) == 4):
+        if not (is_expr(e) and e[0] == "call" and e[1] == "std::max" and len(call_args(e)) == 2):
             return False
         a, b_ = resolve(e[2]), resolve(e[3])
         for x, y in ((a, b_), (b_, a)):
@@ -308,7 +308,7 @@ def flush_value_flow(ctx, P):
     clamp = None
     for l, v in inside:
         e = v
-        if is_expr(e) and e[0] == "call" and e[1] == "std::max" and len(e) == 4:
+        if is_expr(e) and e[0] == "call" and e[1] == "std::max" and len(call_args(e)) == 2:
             c = [x for x in e[2:] if x[0] == "int"]
             o = [x for x in e[2:] if x[0] != "int"]
             if len(c) == 1 and len(o) == 1:
